@@ -8,7 +8,8 @@ TRUSTED = BASE_TRUSTED + [
 ]
 RULE = ("exhaustive tables of every element/exponent method over all residues of p=23 (and 47 in thorough) on both "
         "multiplicative backends, boundary + random operands at 16, 62 and 2048 bits; a case is non-trivial when its "
-        "(ctx, op, args) triple is new; every case is evaluated by the Gallina model inside Coq and compared")
+        "(ctx, op, args) triple is new; every case is evaluated by the Gallina model inside Coq and compared"
+        " Added in session 3: exponents 2..39 and 2^k-1, 2^k, 2^k+1 on every parameter set in one process;")
 
 UN = ["emodp", "einvp", "gpow", "xmodq", "xinvq", "xfrom_u64", "cmodulo", "cexpmodulo"]
 BIN_E = ["emul", "emulp", "edivp", "eeq"]
